@@ -47,6 +47,7 @@ var entryTokens = []string{
 	"a", "b", "c", "ab", "|", "(", "(?:", ")", "[", "]", "a-c", "*", "+", "?", "{2}", ".", "^", "$",
 	`\.`, `\\`, `\x5c`, `"`, `\"`, `\s`, `\t\n\f\r `, " ", "!-~", `\x00`, "é", `\b`,
 	`\(?i:`, // literal text that looks like an engine flag group
+	"A",     // a letter in the other case: entries that differ in case only are merged into a case-folding literal
 	"-~",    // after the Perl white-space class: `[\t\n\f\r -~]`, the blank starts a range
 	"%",     // a formatting verb for whoever prints the result with a printf-style function
 }
@@ -54,7 +55,7 @@ var entryTokens = []string{
 // upperTokens: the upper-case escape classes with what they interact with (case folding under the i flag, class
 // merging). A stratum of their own ("U"): every entry with one of them costs tens of milliseconds in the Go regexp
 // printer, which walks all of Unicode for the negated class.
-var upperTokens = []string{`\S`, `\D`, `\W`, `\s`, "a", "|", "[", "]", ".", "é"}
+var upperTokens = []string{`\S`, `\D`, `\W`, `\s`, "a", "|", "[", "]", ".", "é", "[^a]"}
 
 // additional tokens for C02 (pasting safety)
 var entryTokensC02 = []string{"\t", "\x01", "\x7f", `\x22`, `\Q"\E`, `\x{2019}`, `\x{fffd}`, `\(?-s:`, `\)`, `(?s:.)`, `(?i:a)`, "(?m)"}
